@@ -109,6 +109,16 @@ class FoldZX(ast.NodeVisitor):
                 args.append(self.visit(a))
         return f(*args, **{k.arg: self.visit(k.value) for k in n.keywords})
 
+    def visit_Subscript(self, n):
+        v = self.visit(n.value)
+        if isinstance(n.slice, ast.Slice):
+            lo, hi, st = (self.visit(x) if x is not None else None for x in (n.slice.lower, n.slice.upper, n.slice.step))
+            return v[lo:hi:st]
+        return v[self.visit(n.slice)]
+
+    def visit_GeneratorExp(self, n):
+        return self.visit_ListComp(n)
+
     def visit_ListComp(self, n):
         g, = n.generators
         return [FoldZX(dict(self.env, **{g.target.id: v})).visit(n.elt) for v in self.visit(g.iter)]
@@ -126,4 +136,15 @@ class FoldZX(ast.NodeVisitor):
         raise KeyError("%s: %s" % (type(n).__name__, ast.unparse(n)[:60]))
 
 
-BASE = dict(Z=Z, X=X, Y=Y, Id=Id, scalar=scalar, H=H, Had=lambda: H, pow=pow, len=len, pi=math.pi)
+class Diagram:
+    """the unbound forms Diagram.tensor(first, *rest) / Diagram.id(n)"""
+    @staticmethod
+    def tensor(*xs):
+        if not xs:
+            raise ArityError("Diagram.tensor() of no diagrams: the unbound method needs a first operand")
+        return xs[0].tensor(*xs[1:])
+
+    id = staticmethod(Id)
+
+
+BASE = dict(Z=Z, X=X, Y=Y, Id=Id, scalar=scalar, H=H, Had=lambda: H, pow=pow, len=len, pi=math.pi, Diagram=Diagram, reversed=lambda x: list(reversed(x)), list=list, tuple=tuple)
